@@ -2,7 +2,7 @@ prop("C31",
      theorems=["NeoFS.SigChain.store_called_iff", "NeoFS.SigChain.forEachNode_found_iff", "NeoFS.SigChain.netCheck_none_iff",
                "NeoFS.SigChain.preCheck_none_iff", "NeoFS.SigChain.preCheck_some_failed", "NeoFS.SigChain.netCheck_some_sound",
                "NeoFS.SigChain.ok_iff", "NeoFS.SigChain.not_stored_not_ok", "NeoFS.SigChain.refusal_no_effect",
-               "NeoFS.SigChain.refusal_sound", "NeoFS.SigChain.signed_only_after_store"],
+               "NeoFS.SigChain.refusal_sound", "NeoFS.SigChain.signed_only_after_store", "NeoFS.SigChain.wiring_matches_model"],
      engines=[dict(name="sigchain", quick=1, thorough=1)],
      claim="Lean proves for EVERY request shape and EVERY environment (any epoch, any node sets of the current and the previous epoch incl. "
            "unreadable network maps and policy-application errors, any own keys, any storage verdict): Server.Replicate calls "
@@ -13,7 +13,9 @@ prop("C31",
            "storage was called and accepted (and a requested object signature could be made); no storage call implies a non-OK status; every "
            "refusal status other than busy / store failure / sign failure comes with no storage call and implies that the condition it names "
            "failed (refusal_sound). Tied to the REAL handler over the REAL placement.Service with table-driven container / network-map sources "
-           "and a recording storage on really signed requests; status name, wire code, number of storage calls and signature presence compared.",
+           "and a recording storage on really signed requests; status name, wire code, number of storage calls and signature presence compared. "
+           "The node's own adapters between Server.Replicate and placement.Service / put.Service (cmd/neofs-node/object.go, package main) are "
+           "regenerated as delegation facts (Gen/Wiring.lean) and pinned by wiring_matches_model.",
      note="Proved: the decision logic. Inputs of the model (not proved): ECDSA verification (ideal: the run makes real good signatures, flipped "
           "ones, good signatures of another key and of another id), key and object decoders of the SDK, the policy application of the SDK netmap "
           "package (the run uses REP 1 CBF 8 so that every node of an epoch's map is a container node; an empty map is the policy error), and "
@@ -25,5 +27,5 @@ prop("C31",
           "request-side and environment-side condition failing alone x 3 schemes; 700 (quick) / 20000 (thorough) seeded combinations of node sets "
           "(incl. unreadable / policy error), own keys, epochs and 0-2 defects; non-trivial = request with a valid signature of a well-formed "
           "request (the decision then depends on the environment); distinct by op",
-     trusted=["pkg/services/object/placement forEachContainerNode and Server.Replicate are hand-modelled (Model/SigChain.lean) and tied by correspondence"],
+     trusted=["harness/extract/wiring.go: go/ast extraction of the delegation target of three cmd/neofs-node adapters (a non-delegating adapter is a generation problem)", "pkg/services/object/placement forEachContainerNode and Server.Replicate are hand-modelled (Model/SigChain.lean) and tied by correspondence"],
      assumptions=["signature scheme ideal", "the storage's VerifyAndStoreObjectLocally performs the full validation (parameter of the model)"])
